@@ -193,7 +193,7 @@ def phase_shard(shard):
 
 
 def replay(case):
-    if case["kind"] == "cache-history":
+    if case["kind"] in ("cache-history", "cache-deep-path"):
         return cachebfs.replay(case)
     if case["kind"] == "phase":
         bad, _m = phase_history(case["xi"], case["yi"], case["k"], case["ci"], case["mode"])
@@ -266,6 +266,7 @@ def run(ctx):
             cachebfs.explore(ctx, Cfg(*g, kind, policy, pens[k % 3], "control", False, "base", True), WANT, 60)
             k += 1
     ctx.require("cache-eviction", "cache-fill", "cache-hit", "cache-miss", "rejected")
+    cachebfs.deep_paths(ctx, WANT)
     for L in range(1, (3 if ctx.quick else 4) + 1):
         t0 = time.time()
         part = pmap(prog_shard, [(L, f, 6) for f in range(len(c03.mem_alphabet()))])
